@@ -52,7 +52,11 @@ MANIFEST = {
             "the repaired rules (sessionOld, writeStreamOld, headerLenOld); formatInt_injective / natDigits_canonical (canonical decimal text: "
             "digits only, no leading zero, one text per integer), dump_injective (the bytes determine the table), "
             "writes_chunking_independent (any two cuts of the same rows give the same file), sessions_truncate (a 'w' writer forgets "
-            "everything before it), wrap_lengths (every wrapped line but the last has exactly W characters). FASTA line structure for lengths 0..242, the default VCF header and FASTQ "
+            "everything before it), wrap_lengths (every wrapped line but the last has exactly W characters); the writer models of the formats "
+            "live in Model/C03 (dumpModel, run with Gen.C03.consts) and are tied to the canonical serialisation on the tables they are "
+            "specified for (dumpModel_eq_dumpCanon); sessions_compose_writer / writes_compose_writer state the composition law for the "
+            "writer models themselves (the delimited one is not additive on all tables: dumpModel_not_additive); vcf_roundtrip, cutAt_flatten; "
+            "the reference reader readTable is strict about line and field counts. FASTA line structure for lengths 0..242, the default VCF header and FASTQ "
             "constants are re-measured on the running code into Gen/C03.lean every run and checked by decide. "
             "Correspondence: real writer+reader vs Lean model vs Lean spec vs pure-Python serialiser on every composition of "
             "<= 4 (quick) / <= 6 (thorough) rows x 11 writer plans x every position of the first append.",
